@@ -176,8 +176,13 @@ func (ins *Instance[L, Elem]) Forward(fn *ir.Function) {
 					Decision: d.Decision,
 				}
 
-				for _, ref := range *instr.Referrers() {
-					worklist[ref] = struct{}{}
+				// The state of d.Value changed, which affects all
+				// instructions that use d.Value. This isn't necessarily
+				// the instruction we've just processed.
+				if refs := d.Value.Referrers(); refs != nil {
+					for _, ref := range *refs {
+						worklist[ref] = struct{}{}
+					}
 				}
 			}
 		}
